@@ -180,6 +180,22 @@ pub fn check_file(text: &[u8], kind: &str, u: &Universe, ex: &Extras, rep: &mut 
         base,
         &ctxf,
     );
+    // the other public constructors build the same mapper
+    if let Ok(t) = std::str::from_utf8(text) {
+        let plain = cur::mapper_plain(text);
+        let from_str = cur::mapper_from_str(t, None);
+        let from_pair = cur::mapper_from_str(t, Some(true));
+        let from_pair_no = cur::mapper_from_str(t, Some(false));
+        rep.count("files_checked_through_all_constructors", 1);
+        for (a, b, la, lb, byp) in [
+            (&m, &plain, "new_with_param_mapping(false)", "new", false),
+            (&m, &from_str, "new_with_param_mapping(false)", "from(&str)", false),
+            (&mp, &from_pair, "new_with_param_mapping(true)", "from((&str, true))", true),
+            (&m, &from_pair_no, "new_with_param_mapping(false)", "from((&str, false))", true),
+        ] {
+            diff_remap(a, b, u, ex, &DiffOpts { la, lb, by_params: byp, typed: false, signature_prefix: "constructors: " }, rep, case_idx, base ^ 2, &ctxf);
+        }
+    }
     // line-based answers of the mapper are the same with or without the index
     diff_remap(
         &m,
